@@ -14,19 +14,25 @@ pub mod c12;
 pub mod c13;
 pub mod c14;
 pub mod c15;
+pub mod c20;
+pub mod c20_coll;
+pub mod c20_dash;
+pub mod c20_pl;
+pub mod c20_rand;
 pub mod families;
 pub mod c16;
 pub mod c17;
 pub mod c18;
 
 pub fn all() -> Vec<Check> {
-    vec![c01::check(), c02::check(), c03::check(), c04::check(), c05::check(), c06::check(), c07::check(), c08::check(), c12::check(), c13::check(), c14::check(), c15::check(), c16::check(), c17::check(), c18::check()]
+    vec![c01::check(), c02::check(), c03::check(), c04::check(), c05::check(), c06::check(), c07::check(), c08::check(), c12::check(), c13::check(), c14::check(), c15::check(), c16::check(), c17::check(), c18::check(), c20::check()]
 }
 
 pub fn child_main(args: &[String]) -> i32 {
     crate::sim::silence_panics();
     match args.first().map(|s| s.as_str()) {
         Some("c14f17") => c14::child_f17(),
+        Some("c20coll") => c20_coll::child(&args[1..]),
         Some("c12") => c12::child_history(&args[1..]),
         Some("c12replay") => c12::child_replay(&args[1..]),
         Some("c12portfolio") => c12::child_portfolio(&args[1..]),
